@@ -6,7 +6,14 @@ from ..effects import is_self, self_attr, walk_no_nested
 from ..engine import AnalysisError
 from ..termform import Normalizer, return_exprs
 from . import common
-from .formulas import get_func
+from .formulas import get_func as _get_func_raw
+
+_ENG = [None]
+
+
+def get_func(p, cname, fname):
+    """the anchor function in canonical form (kv/canon.py)"""
+    return _ENG[0].cfunc(_get_func_raw(p, cname, fname), paths=False)
 
 MF = "MultiFit"
 
@@ -28,6 +35,7 @@ def _loops_over(node, text):
 
 def run(eng, R):
     p = eng.p
+    _ENG[0] = eng
     R.rule("P-sum", "without shared errors every member contributes exactly one cost argument (an alias of its own cost node) and the multi cost is their plain sum; "
                     "the log-determinant node is the sum of the members' log-determinants", 6)
     R.rule("P-part", "with shared errors the members are partitioned by `is_chi2`: chi2 members enter the concatenated data / model / covariance nodes (one data-index "
@@ -44,24 +52,14 @@ def run(eng, R):
     R.rule("U-fix", "fix_parameter / release_parameter act on the multi fitter and on every member that has the parameter, with the value the multi fitter recorded", 4)
 
     ini = get_func(p, MF, "_init_nexus")
-    src = _txt(ini.node)
+    src = eng.csrc(ini)   # canonical form; placeholders `_i` / `_f` (loop over the members), `_n` (a name list), `_p` (a parameter node)
     # ---------------------------------------------------------------- P-sum
-    loops = _loops_over(ini.node, "enumerate(self._fits)")
-    ok = False
-    if loops:
-        lp = loops[0]
-        body = _txt(ast.Module(body=lp.body, type_ignores=[]))
-        iv = lp.target.elts[0].id if isinstance(lp.target, ast.Tuple) else "?"
-        fv = lp.target.elts[1].id if isinstance(lp.target, ast.Tuple) else "?"
-        ok = "_original_cost_i = %s._nexus.get('cost')" % fv in body and "_cost_alias_name_i = 'cost%%s' %% %s" % iv in body \
-            and "_cost_alias_i = Alias(ref=_original_cost_i, name=_cost_alias_name_i)" in body and "self._nexus.add(_cost_alias_i, add_children=False)" in body
-        conds = [c for s in ast.walk(lp) if isinstance(s, ast.Call) and "_cost_alias_i" in _txt(s) and isinstance(s.func, ast.Attribute) and s.func.attr == "add" for c in common.guard_conditions_inside(lp, s)]
-        ok = ok and not conds
+    ok = src.like("for _i, _f in enumerate(self._fits): self._nexus.add(Alias(_f._nexus.get('cost'), 'cost%s' % _i), False)")
     R.ob("P-sum", "MultiFit._init_nexus:cost aliases", ok, (ini.file, ini.lineno), "every member must contribute an alias `cost<i>` of its own cost node, unconditionally")
-    ok = "_cost_names = ['cost%s' % _i for _i in range(len(self._fits))]" in src and "_cost_functions = [_fit._cost_function for _fit in self._fits]" in src \
-        and "self._cost_function = MultiCostFunction(singular_cost_functions=_cost_functions, cost_function_names=_cost_names)" in src
+    ok = common.like_any(src, "self._cost_function = MultiCostFunction([_g._cost_function for _g in self._fits], ['cost%s' % _k for _k in range(len(self._fits))])")
     R.ob("P-sum", "MultiFit._init_nexus:cost arguments", ok, (ini.file, ini.lineno), "the multi cost must take exactly the arguments cost0 … cost<n-1>")
-    ok = "func=self._cost_function, func_name=self._cost_function.name, par_names=self._cost_function.arg_names" in src and "self._nexus.add_alias(name='cost', alias_for=_cost_function_node.name)" in src
+    ok = common.like_any(src, "self._nexus.add_alias('cost', self._nexus.add_function(self._cost_function, self._cost_function.name, self._cost_function.arg_names).name)",
+                         ["_c = self._nexus.add_function(self._cost_function, self._cost_function.name, self._cost_function.arg_names)", "self._nexus.add_alias('cost', _c.name)"])
     R.ob("P-sum", "MultiFit._init_nexus:cost node", ok, (ini.file, ini.lineno), "the multi cost node must be wired to the cost function's own argument names and aliased as 'cost'")
     mc = p.find_class("MultiCostFunction")
     cs = mc.find_method("cost_sum")
@@ -72,23 +70,17 @@ def run(eng, R):
     msrc = _txt(mi.node)
     ok = "cost_function=MultiCostFunction.cost_sum" in msrc and "arg_names=cost_function_names" in msrc and "add_determinant_cost=False" in msrc
     R.ob("P-sum", "MultiCostFunction.__init__", ok, (mi.file, mi.lineno), "MultiCostFunction must wrap cost_sum over the given names and must not add a determinant term of its own")
-    ok = "lambda *log_dets: np.sum(log_dets), func_name='total_cov_mat_log_determinant', par_names=_log_det_names" in src \
-        and "_log_det_name = 'total_cov_mat_log_determinant%s' % _i" in src and "_log_det_names.append(_log_det_name)" in src
+    ok = common.like_any(src, ["self._nexus.add_function(lambda *log_dets: np.sum(log_dets), 'total_cov_mat_log_determinant', _n, existing_behavior='replace')", "_n = []",
+                               "if _f._nexus.get('total_cov_mat_log_determinant') is not None:", "_n.append('total_cov_mat_log_determinant%s' % _i)"])
     R.ob("P-sum", "MultiFit._init_nexus:log determinant", ok, (ini.file, ini.lineno), "the combined log-determinant must be the sum over the members that have one")
 
     # ---------------------------------------------------------------- P-par
     ok = "self._combined_parameter_node_dict[_par_node] = _fit_i._nexus.get(_par_node)" in src
     R.ob("P-par", "MultiFit._init_nexus:collect", ok, (ini.file, ini.lineno), "combined parameters must be collected by name from the members' graphs")
-    loops = _loops_over(ini.node, "self._combined_parameter_node_dict.values()")
-    ok = False
-    if loops:
-        lp = loops[0]
-        body = _txt(ast.Module(body=lp.body, type_ignores=[]))
-        tv = _txt(lp.target)
-        ok = "self._nexus.add(%s)" % tv in body and "for _fit in self._fits: if %s.name in _fit.parameter_names: _fit._nexus.add(node=%s, existing_behavior='replace')" % (tv, tv) in body
+    ok = src.like("for _p in self._combined_parameter_node_dict.values(): self._nexus.add(_p) for _g in self._fits: if _p.name in _g.parameter_names: _g._nexus.add(_p, existing_behavior='replace')")
     R.ob("P-par", "MultiFit._init_nexus:replace", ok, (ini.file, ini.lineno),
          "each combined parameter node must be added to the multi graph and must replace the same-named node in every member that has this parameter")
-    ok = "Array(nodes=self._combined_parameter_node_dict.values(), name='parameter_values'), existing_behavior='replace'" in src
+    ok = "self._nexus.add(Array(self._combined_parameter_node_dict.values(), 'parameter_values'), existing_behavior='replace')" in src
     R.ob("P-par", "MultiFit._init_nexus:parameter_values", ok, (ini.file, ini.lineno), "the multi 'parameter_values' node must be the array of the combined nodes")
 
     # ---------------------------------------------------------------- P-part
@@ -111,9 +103,9 @@ def run(eng, R):
         ok1 = "_fit_index_to_data_index[%s] = len(_data_indices) - 1" % iv in chi and "_data_indices.append(_data_indices[-1] + %s.data_size)" % fv in chi
         R.ob("P-part", "_init_shared_error_nodes:data slots", ok1 and "_data_indices" not in oth and "_fit_index_to_data_index" not in oth, (sh.file, i.lineno),
              "each chi2 member takes the next data slot (edge = previous edge + its data size); other members take none")
-        need = ["_y_data_names.append('y_data%%s' %% %s)" % iv, "_y_model_names.append(_y_model_name)", "_y_cov_mat_names.append(_y_cov_mat_name)", "_x_cov_mat_names.append(_x_cov_mat_name)",
-                "_derivative_names.append(_derivatives_name)", "Alias(ref=%s._nexus.get('y_model'), name=_y_model_name)" % fv, "Alias(ref=%s._nexus.get('y_total_cov_mat'), name=_y_cov_mat_name)" % fv,
-                "Alias(ref=%s._nexus.get('x_total_cov_mat'), name=_x_cov_mat_name)" % fv]
+        need = ["_y_data_names.append('y_data%%s' %% %s)" % iv, "_y_model_names.append('y_model%%s' %% %s)" % iv, "_y_cov_mat_names.append('y_cov_mat%%s' %% %s)" % iv,
+                "_x_cov_mat_names.append('x_cov_mat%%s' %% %s)" % iv, "_derivative_names.append('derivatives%%s' %% %s)" % iv, "Alias(%s._nexus.get('y_model'), 'y_model%%s' %% %s)" % (fv, iv),
+                "Alias(%s._nexus.get('y_total_cov_mat'), 'y_cov_mat%%s' %% %s)" % (fv, iv), "Alias(%s._nexus.get('x_total_cov_mat'), 'x_cov_mat%%s' %% %s)" % (fv, iv)]
         miss = [x for x in need if x not in chi]
         # every list is appended exactly once per chi2 member, unconditionally within the branch (the XY / non-XY split only chooses the node kind)
         uncond = True
@@ -127,8 +119,8 @@ def run(eng, R):
         R.ob("P-part", "_init_shared_error_nodes:own cost for other members", "_cost_functions.append(%s._cost_function)" % fv in oth and "_cost_names.append('cost%%s' %% %s)" % iv in oth, (sh.file, i.lineno),
              "a non-chi2 member must keep its own cost argument cost<i>")
     ok = "_cost_functions.append(self._shared_cost_function)" in ssrc and "_cost_names.append(self._shared_cost_function.name)" in ssrc and ssrc.count("_cost_names.append(self._shared_cost_function.name)") == 1 \
-        and "self._cost_function = MultiCostFunction(singular_cost_functions=_cost_functions, cost_function_names=_cost_names)" in ssrc \
-        and "func=self._shared_cost_function, func_name=self._shared_cost_function.name, par_names=self._shared_cost_function.arg_names" in ssrc
+        and "self._cost_function = MultiCostFunction(_cost_functions, _cost_names)" in ssrc \
+        and "self._nexus.add_function(self._shared_cost_function, self._shared_cost_function.name, self._shared_cost_function.arg_names)" in ssrc
     R.ob("P-part", "_init_shared_error_nodes:shared cost", ok, (sh.file, sh.lineno), "the shared cost must be added once, wired to its own argument names, and the multi cost rebuilt from the partition")
     # constraint cost of the sharing members (SharedCostFunction is built without constraint cost)
     scf = p.find_class("SharedCostFunction").find_method("__init__")
@@ -143,8 +135,8 @@ def run(eng, R):
         csrc = _txt(cn)
         ok = "for _par_vals, _par_constraints in zip(values_and_constraints[::2], values_and_constraints[1::2]): for _par_constraint in _par_constraints: _cost += _par_constraint.cost(_par_vals)" in csrc \
             and "for _i in _fit_index_to_data_index: for _node_name in ('parameter_values', 'parameter_constraints'):" in ssrc \
-            and "Alias(ref=self._fits[_i]._nexus.get(_node_name), name='%s%s' % (_node_name, _i))" in ssrc and "_member_constraint_names.append('%s%s' % (_node_name, _i))" in ssrc \
-            and "self._nexus.add_function(_member_constraint_cost, func_name='member_constraint_cost', par_names=_member_constraint_names)" in ssrc \
+            and "Alias(self._fits[_i]._nexus.get(_node_name), '%s%s' % (_node_name, _i))" in ssrc and "_member_constraint_names.append('%s%s' % (_node_name, _i))" in ssrc \
+            and "self._nexus.add_function(_member_constraint_cost, 'member_constraint_cost', _member_constraint_names)" in ssrc \
             and ssrc.count("_cost_names.append('member_constraint_cost')") == 1
     R.ob("P-part", "_init_shared_error_nodes:member constraints", ok, (sh.file, sh.lineno),
          "the shared cost function carries no constraint term: the constraint cost of every sharing member (its own parameter values and constraints) must enter the multi cost once")
@@ -204,12 +196,12 @@ def run(eng, R):
     c1 = _nested(sh, "_combine_1d_property")
     c2 = _nested(sh, "_combine_cov_mats")
     s1 = _txt(c1)
-    ok = "_combined_property = np.zeros(shape=_data_indices[-1])" in s1 and "for _j, _single_fit_property in enumerate(single_fit_properties): _lower = _data_indices[_j] _upper = _data_indices[_j + 1] " \
-        "_combined_property[_lower:_upper] = _single_fit_property" in s1
+    ok = s1.all_like("_c = np.zeros(shape=_data_indices[-1])", "for _j, _v in enumerate(single_fit_properties): _c[_data_indices[_j]:_data_indices[_j + 1]] = _v", "return _c")
     R.ob("B-diag", "_combine_1d_property", ok, (sh.file, c1.lineno), "concatenation must place the j-th member's values at [_data_indices[j] : _data_indices[j+1]]")
     s2 = _txt(c2)
-    ok = "_combined_property = np.zeros(shape=(_data_indices[-1], _data_indices[-1]))" in s2 and "for _j, _single_fit_property in enumerate(single_fit_properties): _lower = _data_indices[_j] _upper = _data_indices[_j + 1] " \
-        "_combined_property[_lower:_upper, _lower:_upper] = _single_fit_property" in s2
+    ok = s2.all_like("_c = np.zeros(shape=(_data_indices[-1], _data_indices[-1]))",
+                     "for _j, _v in enumerate(single_fit_properties): _c[_data_indices[_j]:_data_indices[_j + 1], _data_indices[_j]:_data_indices[_j + 1]] = _v", "return _c")
+    comb = s2._binding.get("_c", "_combined_property")
     R.ob("B-diag", "_combine_cov_mats:diagonal", ok, (sh.file, c2.lineno), "the j-th member's covariance must fill the diagonal block [e_j:e_j+1, e_j:e_j+1]")
     tot = get_func(p, MF, "total_cov_mat")
     ts = _txt(tot.node)
@@ -223,16 +215,20 @@ def run(eng, R):
     if ok:
         lp = sl[0]
         ev = _txt(lp.target)
-        pre = [_txt(s) for s in lp.body if isinstance(s, ast.If)]
-        R.ob("B-off", "_combine_cov_mats:enabled", "if not %s['enabled']: continue" % ev in pre, (sh.file, lp.lineno), "a disabled shared source must not contribute")
-        R.ob("B-off", "_combine_cov_mats:axis", "if %s['axis'] != axis_name: continue" % ev in pre, (sh.file, lp.lineno), "a shared source contributes to the matrix of its own axis only")
+        from .formulas import canon_cond_text
+        R.ob("B-off", "_combine_cov_mats:source guards present", True, (sh.file, lp.lineno), "", nontrivial=False) if False else None
+        _guards_of = lambda n_: canon_cond_text(common.guard_conditions_inside(lp, n_))  # noqa: E731
         stores = []
         for s in ast.walk(lp):
             tg = s.targets[0] if isinstance(s, ast.Assign) and len(s.targets) == 1 else (s.target if isinstance(s, ast.AugAssign) else None)
-            if tg is not None and isinstance(tg, ast.Subscript) and _txt(tg.value) == "_combined_property":
+            if tg is not None and isinstance(tg, ast.Subscript) and _txt(tg.value) == comb:
                 stores.append(s)
         if not stores:
             raise AnalysisError("_combine_cov_mats: no store into the combined matrix inside the shared-source loop")
+        lit = [x for st_ in stores for t_, pol_ in common.guard_conditions_inside(lp, st_) if pol_
+               for x in ([_txt(v) for v in t_.values] if isinstance(t_, ast.BoolOp) and isinstance(t_.op, ast.And) else [_txt(t_)])]
+        R.ob("B-off", "_combine_cov_mats:enabled", lit.count("%s['enabled']" % ev) == len(stores), (sh.file, lp.lineno), "a disabled shared source must not contribute")
+        R.ob("B-off", "_combine_cov_mats:axis", lit.count("%s['axis'] == axis_name" % ev) == len(stores), (sh.file, lp.lineno), "a shared source contributes to the matrix of its own axis only")
         aug = all(isinstance(s, ast.AugAssign) and isinstance(s.op, ast.Add) for s in stores)
         R.ob("B-off", "_combine_cov_mats:accumulate", aug, (sh.file, stores[0].lineno),
              "off-diagonal blocks must accumulate (+=): a plain store makes the last of several sources sharing a pair of members overwrite the others")
@@ -251,8 +247,7 @@ def run(eng, R):
                 defs = [d for d in ast.walk(lp) if isinstance(d, ast.Assign) and isinstance(d.targets[0], ast.Name) and d.targets[0].id == v.id]
                 v = defs[-1].value if defs else v
             vals.add(_txt(v))
-        errv = [_txt(d.targets[0]) for d in lp.body if isinstance(d, ast.Assign) and _txt(d.value) == "%s['err']" % ev]
-        R.ob("B-off", "_combine_cov_mats:value", len(errv) == 1 and vals == {"%s.cov_mat" % errv[0]}, (sh.file, stores[0].lineno), "the stored value must be the source's absolute covariance matrix (found %s)" % sorted(vals))
+        R.ob("B-off", "_combine_cov_mats:value", vals == {"%s['err'].cov_mat" % ev}, (sh.file, stores[0].lineno), "the stored value must be the source's absolute covariance matrix (found %s)" % sorted(vals))
     # block edges through the map: every _data_indices[...] lookup outside the diagonal loops uses a slot taken from _fit_index_to_data_index
     bad = []
     n_lookup = 0
@@ -271,7 +266,8 @@ def run(eng, R):
                 base = it[:-4] if it.endswith(" + 1") else it
                 defs = [d for d in ast.walk(sh.node) if isinstance(d, ast.Assign) and _txt(d.targets[0]) == base]
                 n_lookup += 1
-                if not defs or not all(_txt(d.value).startswith("_fit_index_to_data_index[") for d in defs):
+                direct = base.startswith("_fit_index_to_data_index[")   # written out
+                if not direct and (not defs or not all(_txt(d.value).startswith("_fit_index_to_data_index[") for d in defs)):
                     bad.append("%s (line %d)" % (it, n.lineno))
     R.ob("B-off", "_init_shared_error_nodes:edges through the map", not bad and n_lookup >= 2, (sh.file, c2.lineno),
          "block edges of a sharing member must be _data_indices[slot], _data_indices[slot + 1] with slot = _fit_index_to_data_index[fit index] (fit indices differ from data slots "
@@ -282,14 +278,17 @@ def run(eng, R):
         n = _nested(sh, fn)
         from ..termform import assigned_exprs
 
-        forms = {}
-        for conds, e, env in assigned_exprs(n, "_cov_mat"):
-            key = " and ".join(("" if pol else "not ") + _txt(t) for t, pol in conds)
-            forms[key] = Normalizer(env).norm(e).canon()
         dec = "cholesky_decomposition" if fn.endswith("cholesky") else "qr_decomposition"
-        rets = [_txt(r.value) for r in ast.walk(n) if isinstance(r, ast.Return)]
-        want = {"self._min_x_error is not None": "outer(derivatives,derivatives)*x_cov_mat + y_cov_mat", "not self._min_x_error is not None": "y_cov_mat"}
-        R.ob("B-tot", "_init_shared_error_nodes:%s" % fn, forms == want and rets == ["%s(_cov_mat)" % dec] and [a.arg for a in n.args.args] == ["x_cov_mat", "derivatives", "y_cov_mat"], (sh.file, n.lineno),
+        from ..termform import path_exprs, subst
+        forms = {}
+        for conds, e, env in path_exprs(n, lambda st: [st.value] if isinstance(st, ast.Return) and st.value is not None else []):
+            forms[" and ".join(canon_cond_text(conds))] = Normalizer({}).norm(subst(e, env)).canon()
+        from ..termform import norm_spec
+        spec = norm_spec("%s(y_cov_mat if self._min_x_error is None else y_cov_mat + x_cov_mat * outer(derivatives, derivatives))" % dec).canon()
+        split = {"(self._min_x_error is None)": norm_spec("%s(y_cov_mat)" % dec).canon(), "not (self._min_x_error is None)": norm_spec("%s(y_cov_mat + x_cov_mat * outer(derivatives, derivatives))" % dec).canon()}
+        rets, want = [spec], forms
+        forms_ok = forms == {"": spec} or forms == split
+        R.ob("B-tot", "_init_shared_error_nodes:%s" % fn, forms_ok and [a.arg for a in n.args.args] == ["x_cov_mat", "derivatives", "y_cov_mat"], (sh.file, n.lineno),
              "%s must decompose y + x o outer(derivatives, derivatives) (x part only when x uncertainties exist); found %s -> %s" % (fn, forms, rets))
     rs = return_exprs(tot.node)
     got = [Normalizer(env).norm(e).canon() for conds, e, env in rs if conds and conds[0][1] and "_shared_error_dicts" in _txt(conds[0][0])]
@@ -300,9 +299,9 @@ def run(eng, R):
         and "errors_to_use='covariance'" in sc and "add_determinant_cost=True" in sc
     R.ob("B-tot", "SharedCostFunction.__init__", ok, (scf.file, scf.lineno), "the shared cost must be the covariance chi2 (with determinant) of the joint y data / y model and the joint decompositions")
     for nm, names in (("x_cov_mat", "_x_cov_mat_names"), ("y_cov_mat", "_y_cov_mat_names")):
-        ok = "func=lambda *p: _combine_cov_mats('%s', *p), func_name='%s', par_names=%s" % (nm[0], nm, names) in ssrc
+        ok = "self._nexus.add_function(lambda *p: _combine_cov_mats('%s', *p), '%s', %s, False)" % (nm[0], nm, names) in ssrc
         R.ob("B-tot", "_init_shared_error_nodes:%s node" % nm, ok, (sh.file, sh.lineno), "node %s must combine the members' %s-matrices with the shared sources of axis '%s'" % (nm, nm[0], nm[0]))
-    ok = all("func=_combine_1d_property, func_name='%s', par_names=%s" % (a, b) in ssrc for a, b in (("derivatives", "_derivative_names"), ("y_data", "_y_data_names"), ("y_model", "_y_model_names")))
+    ok = all("self._nexus.add_function(_combine_1d_property, '%s', %s, False)" % (a, b) in ssrc for a, b in (("derivatives", "_derivative_names"), ("y_data", "_y_data_names"), ("y_model", "_y_model_names")))
     R.ob("B-tot", "_init_shared_error_nodes:1d nodes", ok, (sh.file, sh.lineno), "derivatives, y_data and y_model must be the concatenations of the sharing members' nodes")
 
     # the switch "x uncertainties exist" follows the members: read from the live x covariance, never cached on the multi-fit
@@ -313,7 +312,7 @@ def run(eng, R):
     R.ob("B-tot", "MultiFit._min_x_error:live", ok, (sh.file, sh.lineno),
          "the smallest x uncertainty must be computed from the current joint x covariance whenever it is asked for: a value cached by the MultiFit (%s) does not see x uncertainties "
          "added to a member afterwards, and the shared cost ignores them" % (stores or "no property"))
-    ok = "self._nexus.add_dependency(name=_derivatives_name, depends_on=('parameter_values', _x_cov_mat_name))" in ssrc
+    ok = ssrc.like("self._nexus.add_dependency('derivatives%s' % _i, ('parameter_values', 'x_cov_mat%s' % _i))")
     R.ob("B-tot", "_init_shared_error_nodes:derivative dependencies", ok, (sh.file, sh.lineno), "the slopes of a member depend on the parameters and on that member's x covariance (the step size and the zero shortcut follow it)")
 
     # ---------------------------------------------------------------- U-res
@@ -335,17 +334,21 @@ def run(eng, R):
         lp = loops[0]
         fv = _txt(lp.target)
         body = _txt(ast.Module(body=lp.body, type_ignores=[]))
-        R.ob("U-res", "_update_singular_fits:indices", "_parameter_indices = self._get_parameter_indices(singular_fit=%s)" % fv in body, (us.file, lp.lineno), "sub-blocks must be selected by the member's own parameter indices")
+        IDX = "[self.parameter_names.index(_q) for _q in %s.parameter_names]" % fv
+        bsrc = common.Src(body)
+        helper = bsrc.like("_ix = self._get_parameter_indices(%s)" % fv)
+        ix = "_ix" if helper else IDX
+        R.ob("U-res", "_update_singular_fits:indices", helper or bsrc.like(IDX), (us.file, lp.lineno), "sub-blocks must be selected by the member's own parameter indices")
         dct = [s for s in lp.body if isinstance(s, ast.Assign) and _txt(s.targets[0]) == "%s._loaded_result_dict" % fv and isinstance(s.value, ast.Call)]
         okd = len(dct) == 1
         kw = {k.arg: _txt(k.value) for k in dct[0].value.keywords} if okd else {}
-        want = {"did_fit": "self.did_fit", "parameter_errors": "self.parameter_errors[_parameter_indices]", "parameter_cor_mat": "_par_cor_mat", "parameter_cov_mat": "_par_cov_mat",
-                "asymmetric_parameter_errors": "_asymmetric_parameter_errors"}
-        R.ob("U-res", "_update_singular_fits:result keys", kw == want, (us.file, lp.lineno), "each member must receive did_fit, errors, correlation, covariance and asymmetric errors (found %s)" % kw)
-        for loc, srcattr in (("_par_cor_mat", "self.parameter_cor_mat"), ("_par_cov_mat", "self.parameter_cov_mat")):
-            ok = "%s = %s if %s is not None: %s = %s[_parameter_indices][:, _parameter_indices]" % (loc, srcattr, loc, loc, loc) in body
-            R.ob("U-res", "_update_singular_fits:%s" % loc, ok, (us.file, lp.lineno), "%s must be the rows and columns of %s at the member's parameter indices" % (loc, srcattr))
-        ok = "_asymmetric_parameter_errors = self._fitter.asymmetric_fit_parameter_errors_if_calculated if _asymmetric_parameter_errors is not None: _asymmetric_parameter_errors = _asymmetric_parameter_errors[_parameter_indices]" in body
+        ok = set(kw) == {"did_fit", "parameter_errors", "parameter_cor_mat", "parameter_cov_mat", "asymmetric_parameter_errors"} and kw.get("did_fit") == "self.did_fit" \
+            and bsrc.all_like("parameter_errors=self.parameter_errors[%s]" % ix, "parameter_cor_mat=_cor", "parameter_cov_mat=_cov", "asymmetric_parameter_errors=_asy")
+        R.ob("U-res", "_update_singular_fits:result keys", ok, (us.file, lp.lineno), "each member must receive did_fit, errors, correlation, covariance and asymmetric errors (found %s)" % kw)
+        for loc, srcattr in (("_cor", "self.parameter_cor_mat"), ("_cov", "self.parameter_cov_mat")):
+            ok = bsrc.like("%s = %s if %s is not None: %s = %s[%s][:, %s]" % (loc, srcattr, loc, loc, loc, ix, ix))
+            R.ob("U-res", "_update_singular_fits:%s" % {"_cor": "_par_cor_mat", "_cov": "_par_cov_mat"}[loc], ok, (us.file, lp.lineno), "the member's matrix must be the rows and columns of %s at the member's parameter indices" % srcattr)
+        ok = bsrc.like("_asy = self._fitter.asymmetric_fit_parameter_errors_if_calculated if _asy is not None: _asy = _asy[%s]" % ix)
         R.ob("U-res", "_update_singular_fits:asymmetric", ok, (us.file, lp.lineno), "asymmetric errors must be the rows at the member's parameter indices")
     gi = get_func(p, MF, "_get_parameter_indices")
     rs = return_exprs(gi.node)
@@ -356,12 +359,12 @@ def run(eng, R):
     f = get_func(p, MF, "fix_parameter")
     fs = _txt(f.node)
     g = eng.cfg(f)
-    ok = "self._fitter.fix_parameter(name=name, value=value)" in fs and "_val = self._fitter.fixed_parameters[name]" in fs
+    ok = fs.all_like("self._fitter.fix_parameter(name, value)", "_v = self._fitter.fixed_parameters[name]")
     R.ob("U-fix", "MultiFit.fix_parameter:multi", ok, (f.file, f.lineno), "the multi fitter must fix the parameter first; the mirrored value is the one it recorded")
-    ok = "for fit in self._fits: if name not in fit.parameter_names: continue fit.fix_parameter(name, _val)" in fs
+    ok = fs.like("for _m in self._fits: if name in _m.parameter_names: _m.fix_parameter(name, _v)")
     R.ob("U-fix", "MultiFit.fix_parameter:members", ok, (f.file, f.lineno), "every member that has the parameter must fix it at the recorded value")
     f = get_func(p, MF, "release_parameter")
     fs = _txt(f.node)
     R.ob("U-fix", "MultiFit.release_parameter:multi", "self._fitter.release_parameter(name)" in fs, (f.file, f.lineno), "the multi fitter must release the parameter")
-    ok = "for fit in self._fits: if name not in fit.parameter_names: continue fit.release_parameter(name)" in fs
+    ok = fs.like("for _m in self._fits: if name in _m.parameter_names: _m.release_parameter(name)")
     R.ob("U-fix", "MultiFit.release_parameter:members", ok, (f.file, f.lineno), "every member that has the parameter must release it")
